@@ -892,6 +892,42 @@ def rule_wrapper_released(ck, facts, R="C12.return"):
     ck.floor(R, "closure_wrapper_releasers", n, 1)
 
 
+
+def rule_upvalue_descriptor(ck, facts, R="C12.creation"):
+    """reads and writes of a captured variable describe it the same way"""
+    from ..cfg import DefIndex
+
+    lang = facts.crate(roles.LANG)
+    adt = [a for p, a in lang.adts.items() if p.endswith("::OpenUpValue")]
+    if not adt:
+        return
+    names = [x[0] for x in adt[0]["variants"][0]["f"]]
+    if "is_closure" not in names:
+        return
+    k = names.index("is_closure")
+    sites = []
+    for f in lang.fns:
+        if "::compiler::bytecodegen" not in f.path or f.kind == "promoted" or "::test" in f.path:
+            continue
+        di = None
+        for b, st in f.all_stmts():
+            if st[KIND] == "a" and st[5][0] == "agg" and st[5][1][0] == "adt" and st[5][1][1].endswith("::OpenUpValue") and len(st[5][2]) > k:
+                di = di or DefIndex(f)
+                r = di.resolve(st[5][2][k])
+                how = ("call:" + (callee(r[1]) or "?").split("::")[-1]) if r[0] == "call" else ("%s:%s" % (r[0], r[1][5][0] if r[0] == "rv" else ""))
+                sites.append((f, st, how))
+    n = len(sites)
+    kinds = {h for _, _, h in sites}
+    if n >= 2 and len(kinds) == 1:
+        ck.ok(R, "upvalue-descriptor|is_closure", {"sites": n, "computed_by": sorted(kinds)[0]})
+    elif n >= 2:
+        from collections import Counter
+        maj = Counter(h for _, _, h in sites).most_common(1)[0][0]
+        odd = [(f, st, h) for f, st, h in sites if h != maj][0]
+        ck.bad(R, "upvalue-descriptor|is_closure", "the bytecode generator describes a captured variable in %d places and computes `is_closure` differently in one of them (%s, elsewhere %s): the descriptor written last wins, so a closure whose last access to a captured function value is an assignment is recorded as not holding a closure — the VM does not retain it when the capturing closure is closed and the escaping closure calls a released object" % (n, odd[2], maj), odd[0].where(odd[1]))
+    ck.floor(R, "upvalue_descriptor_sites", n, 2)
+
+
 def rule_release_order(ck, facts, R="C12.offsets"):
     """what a dying object owns is read before the object is given back"""
     from ..cfg import dominators
@@ -947,6 +983,7 @@ def run(ck, facts, tier):
     rule_return_arms(ck, facts)
     rule_wrapper_released(ck, facts)
     rule_creation_registers(ck, facts)
+    rule_upvalue_descriptor(ck, facts)
     rule_walkers(ck, facts)
     rule_predicates(ck, facts)
     rule_predicate_recursion(ck, facts)
